@@ -356,6 +356,10 @@ func (u *Unit) fieldOf(st *State, v Value, name string) Value {
 			return u.bufData(st, v)
 		case "bitDepth":
 			return Value{K: KNum, T: u.bdType(), Term: u.bufBD(st, v)}
+		default:
+			// a header field the memory model does not know (added by a change): an
+			// unconstrained per-object integer component of the header class
+			return Value{K: KInt, T: types.Typ[types.Int], Term: Select(u.comp(st, "xf."+name+":"+elemKey(v.Elem), arrII), v.Term)}
 		}
 	case KStruct:
 		if f, ok := v.Fields[name]; ok {
@@ -669,6 +673,12 @@ func (u *Unit) assign(st *State, lhs ast.Expr, v Value, define bool) {
 			}
 			u.writeEvent(st, f+":"+elemKey(base.Elem))
 			u.setComp(st, f+":"+elemKey(base.Elem), Store(u.fld(st, base.Elem, f), base.Term, v.Term))
+			return
+		}
+		if base.K == KBuf && v.K == KInt {
+			name := "xf." + l.Sel.Name + ":" + elemKey(base.Elem)
+			u.writeEvent(st, "dlen:"+elemKey(base.Elem))
+			u.setComp(st, name, Store(u.comp(st, name, arrII), base.Term, v.Term))
 			return
 		}
 		u.errorf("%s: unsupported assignment target %s", u.pos(lhs), l.Sel.Name)
